@@ -16,7 +16,7 @@ WIT = ["manual_decisions", "trust_messages", "postponed"]
 
 
 def run(tier):
-    depth = 5 if tier == "thorough" else 3
+    depth = 6 if tier == "thorough" else 3
     cfgs = [dict(name="no-policy", config={"toakafa": False}, depth=depth, dev=9, deadline=2400),
             dict(name="toakafa", config={"toakafa": True}, depth=depth, dev=9, deadline=2400)]
     return bfs_check(PROP, HARNESS, tier, cfgs, RULE, ASSUME, witness_required=WIT)
